@@ -677,9 +677,43 @@ func genFdpOp(h *vh.H) string {
 	// further files of the op: types of the same (or another) package reached through a direct import,
 	// an `import public` of the file itself, or the public import of an intermediate file
 	var extraFiles []*descriptorpb.FileDescriptorProto
-	if h.Chance(1, 4) {
+	// an imported SIBLING package whose name below the common parent is the first component of a root-level
+	// package this file refers to (`a.google.v1` imported by `a.b.v1` which uses `google.protobuf.Timestamp`,
+	// `a.j5.v1` / `a.buf.v1` for the option extensions `(j5.ext.v1.*)` / `(buf.validate.*)`): the relative name
+	// would be captured by the imported package's namespace, the printer has to write the leading dot
+	sibling := ""
+	if parts := strings.Split(g.pkg, "."); len(parts) >= 2 && h.Chance(1, 5) {
+		x := vh.Pick(h, []string{"google", "google", "j5", "buf"})
+		cand := parts[0] + "." + x + ".v1"
+		if cand != g.pkg && !strings.HasPrefix(g.pkg+".", cand+".") {
+			sibling = cand
+			g.feat["imported-sibling-package:"+x] = true
+			h.Count("gen.fdp.imported-sibling-package")
+			// make sure the file refers to a root-level package with that first component
+			var want []struct{ file, name string }
+			for _, e := range externalTypes {
+				if strings.HasPrefix(e.name, "."+x+".") {
+					want = append(want, e)
+				}
+			}
+			for k := 0; k < 2 && len(want) > 0; k++ {
+				e := want[h.Rng.IntN(len(want))]
+				g.ext = append(g.ext, e.name, e.name)
+				found := false
+				for _, d := range g.fdp.Dependency {
+					found = found || d == e.file
+				}
+				if !found {
+					g.fdp.Dependency = append(g.fdp.Dependency, e.file)
+				}
+			}
+		}
+	}
+	if sibling != "" || h.Chance(1, 4) {
 		dpkg := g.pkg
-		if h.Chance(1, 3) {
+		if sibling != "" {
+			dpkg = sibling
+		} else if h.Chance(1, 3) {
 			dpkg = vh.Pick(h, []string{"dep.v1", "x.dep.v1", "gen.dep"})
 		}
 		depPath := strings.ReplaceAll(dpkg, ".", "/") + "/dep.proto"
